@@ -6,6 +6,7 @@ import (
 	"encoding/json"
 	"errors"
 	"fmt"
+	"io"
 	"io/ioutil"
 	"math/big"
 	"net/http"
@@ -28,6 +29,8 @@ import (
 const (
 	randNumberSize = 32
 	addrLen        = 20
+	// maxDocumentSize bounds what dataFetch reads of a fetched document
+	maxDocumentSize = 16 << 20
 )
 
 func mergeErrors(ctx context.Context, cs ...chan error) chan error {
@@ -190,8 +193,14 @@ func dataFetch(url string) (body []byte, err error) {
 		return
 	}
 
-	body, err = ioutil.ReadAll(r.Body)
+	// the URL comes from the request event: do not read an unbounded document into memory
+	body, err = ioutil.ReadAll(io.LimitReader(r.Body, maxDocumentSize+1))
+	if err == nil && len(body) > maxDocumentSize {
+		err = errors.New("document larger than the 16 MiB a node reads")
+	}
 	if err != nil {
+		body = nil
+		r.Body.Close()
 		return
 	}
 
